@@ -80,7 +80,7 @@ def _floats(ctx, names):
     return [ctx.input(n, SymFloat.fresh(n)) for n in names]
 
 
-@harness("constants.constant_key.float_partition", props=["C08", "C03"], functions=["code_data._constants." + f for f in FUNCS], configs="any",
+@harness("constants.constant_key.float_partition", props=["C08", "C03", "C05", "C06", "C01"], functions=["code_data._constants." + f for f in FUNCS], configs="any",
          assumes=["str(x) == '-0.0' iff x is negative zero (validated by E3)"],
          notes="all pairs of binary64 values: keys are equal iff the values are bit-equal, with all NaNs identified")
 def h_float(ctx, cfg):
@@ -91,7 +91,7 @@ def h_float(ctx, cfg):
     ctx.prove("post.key_equality_is_bit_equality_modulo_nan", spec if eq else z3.Not(spec))
 
 
-@harness("constants.constant_key.complex_partition", props=["C08", "C03"], functions=["code_data._constants." + f for f in FUNCS], configs="any",
+@harness("constants.constant_key.complex_partition", props=["C08", "C03", "C05", "C06", "C01"], functions=["code_data._constants." + f for f in FUNCS], configs="any",
          notes="all pairs of complex values (two binary64 parts each)")
 def h_complex(ctx, cfg):
     ck = const_ns()["constant_key"]
@@ -101,7 +101,7 @@ def h_complex(ctx, cfg):
     ctx.prove("post.key_equality_is_partwise_bit_equality_modulo_nan", spec if eq else z3.Not(spec))
 
 
-@harness("constants.constant_key.int_partition", props=["C08", "C03"], functions=["code_data._constants.inner_constant_key"], configs="any",
+@harness("constants.constant_key.int_partition", props=["C08", "C03", "C05", "C06", "C01"], functions=["code_data._constants.inner_constant_key"], configs="any",
          notes="all pairs of ints: keys equal iff the ints are equal; an int key never equals a bool or float key")
 def h_int(ctx, cfg):
     ck = const_ns()["constant_key"]
@@ -125,14 +125,14 @@ def _register_containers():
             ctx.prove("post.tuple_keys_equal_iff_elementwise", spec if eq else z3.Not(spec))
             if n == 1:
                 ctx.prove("post.tuple_key_differs_from_bare_key", z3.BoolVal(not key_eq(ck(tuple(xs)), ck(xs[0]))))
-        harness("constants.constant_key.tuple_of_floats[len=%d]" % n, props=["C08", "C03"], functions=["code_data._constants.inner_constant_key"], configs="any", engine="E2",
+        harness("constants.constant_key.tuple_of_floats[len=%d]" % n, props=["C08", "C03", "C05", "C06", "C01"], functions=["code_data._constants.inner_constant_key"], configs="any", engine="E2",
                 notes="bounded: tuples of %d symbolic floats (the element case is the unbounded float obligation; induction over length is the meta-step)" % n)(h)
 
 
 _register_containers()
 
 
-@harness("constants.constant_key.cross_constructor", props=["C08", "C03"], functions=["code_data._constants.constant_key"], configs="any",
+@harness("constants.constant_key.cross_constructor", props=["C08", "C03", "C05", "C06", "C01"], functions=["code_data._constants.constant_key"], configs="any",
          notes="representatives of every constructor and nesting: key equality coincides with (same type and same repr), i.e. CPython-distinct constants stay distinct (finite check)")
 def h_cross(ctx, cfg):
     ck = C.constant_key
